@@ -60,7 +60,9 @@ fn interesting_word(r: &mut Rng, ms: &[MappingInfo], sp: u64) -> u64 {
         0 => r.below(8),
         1 => *r.pick(&[4095u64, 4096, 4097, 0, 1]),
         2 => (-(r.range(1, 4100) as i64)) as u64,
-        3 => *r.pick(&[(-4096i64) as u64, (-4097i64) as u64, u64::MAX, 0x0defaced0defaced]),
+        3 => *r.pick(&[(-4096i64) as u64, (-4097i64) as u64, u64::MAX, 0x0defaced0defaced,
+                       // the ends of the signed range (the magnitude of the smallest value is not representable)
+                       1u64 << 63, (1u64 << 63) + 1, (1u64 << 63) - 1, (1u64 << 63) + 4096, (1u64 << 63) - 4096]),
         4 | 5 | 6 | 7 if !ms.is_empty() => {
             let m = r.pick(ms);
             let s = m.system_mapping_info.start_address as u64;
